@@ -46,6 +46,16 @@ Theorem C20_reinit_ignores_foreign_rounds :
 Proof. exact reinit_ignores_foreign_rounds. Qed.
 Print Assumptions C20_reinit_ignores_foreign_rounds.
 
+(* ... and so has any message of the signing phase, of the restored round too, wherever it stands in
+   the file: a batch proposal that every node refused while the key generation was under way does not
+   end the replay (fix 34530eb: the replay used to END at the first signing proposal of its round) *)
+Theorem C20_reinit_ignores_signing_messages :
+  forall now h rd l m r,
+  is_signing_event (m_event m) = true ->
+  reinit_dkg now h (Some (with_msgs rd (l ++ m :: r))) = reinit_dkg now h (Some (with_msgs rd (l ++ r))).
+Proof. exact reinit_ignores_signing_messages. Qed.
+Print Assumptions C20_reinit_ignores_signing_messages.
+
 (* the state part is REFUTED for dumps that contain a message the original nodes refused for its
    signature (known finding reinit-replays-unverified-message): while verification is switched off -
    as it is for the whole replay of a reinitialisation - the signature of a message is never looked
